@@ -1,6 +1,7 @@
 package rules
 
 import (
+	"strings"
 	"fmt"
 	"go/token"
 	"go/types"
@@ -137,6 +138,44 @@ func checkC28(c *Ctx) {
 			c.Oblige("C28.replace", ShortName(ra)+"/f-after-children", c.Prog.Pos(cs.Pos()), bad == "", "children are replaced at "+bad+" after the replacement function has been applied to the parent (not bottom-up)")
 		}
 		c.RequireCount("C28.replace call of f", nf, 1)
+		// f is given, and every path that does not use f's answer returns, the
+		// node as rebuilt from the replaced children (not the original node)
+		var rebuilt []*ssa.Call
+		for _, cs := range Calls(ra) {
+			if f := Callee(cs.Common()); f != nil && PkgPathOf(f) == ExprPkg && strings.HasPrefix(f.Name(), "New") {
+				if call, ok := cs.Instr.(*ssa.Call); ok {
+					rebuilt = append(rebuilt, call)
+				}
+			}
+		}
+		missing := func(v ssa.Value) string {
+			for _, rb := range rebuilt {
+				if !DependsOn(v, func(w ssa.Value) bool { return w == ssa.Value(rb) }) {
+					return rb.Call.StaticCallee().Name() + " at " + c.Prog.Pos(rb.Pos())
+				}
+			}
+			return ""
+		}
+		var fCall ssa.Value
+		for _, cs := range Calls(ra) {
+			if _, isParam := cs.Common().Value.(*ssa.Parameter); !isParam || cs.Common().IsInvoke() {
+				continue
+			}
+			fCall = cs.Instr.(ssa.Value)
+			m := missing(cs.Common().Args[0])
+			c.Oblige("C28.replace", ShortName(ra)+"/f-on-rebuilt-node", c.Prog.Pos(cs.Pos()), m == "", "the replacement function is not given the node rebuilt by "+m+": replacements made inside the node are lost when the node itself is replaced from its children")
+		}
+		for _, b := range ra.Blocks {
+			ret, ok := b.Instrs[len(b.Instrs)-1].(*ssa.Return)
+			if !ok {
+				continue
+			}
+			if fCall != nil && DependsOn(ret.Results[0], func(w ssa.Value) bool { return w == fCall }) {
+				continue
+			}
+			m := missing(ret.Results[0])
+			c.Oblige("C28.replace", ShortName(ra)+"/returns-rebuilt-node", c.Prog.Pos(ret.Pos()), m == "", "a path on which the node itself is not replaced returns a node that is not the one rebuilt by "+m)
+		}
 	}
 	// --- Exprs
 	if ex := anchor(c, pkgXform+".Exprs"); ex != nil {
